@@ -135,6 +135,15 @@ SYMBOLS.update({name: name for name in TABLE})
 _TOKEN = re.compile(r"\s*(\*\*|\*|/|\(|\)|-?\d+(?:\.\d+)?|[A-Za-z_][A-Za-z_0-9]*)")
 
 
+def use_user_constants():
+    """The reading of unit names inside the "user-constants" environment (see runner._user_constants_config): M_sun and R_sun are the
+    user's own definitions there."""
+    TABLE["M_sun"] = (2.0e33, _d(g=1), 1e-14)
+    TABLE["R_sun"] = (7.0e10, _d(cm=1), 1e-14)
+    SYMBOLS["M_sun"] = "M_sun"
+    SYMBOLS["R_sun"] = "R_sun"
+
+
 def parse(expr):
     """A unit string of the grammar  term (('*' | '/' | ' ') term)*,  term = name ['**' number] | '1'  ->  {canonical name: exponent},
     or None when the string uses anything else (the caller then has no independent reading of it). Products and quotients associate
